@@ -332,29 +332,60 @@ pub fn run(tier: Tier) -> Run {
         }
     }
     let hs: Vec<(Vec<TOp>, Vec<u32>)> = hs.into_iter().filter_map(|h| { let b = build(&h); if b.enabled { Some((h, b.words)) } else { None } }).collect();
+    // first parses: quick = every history of length <= 1 plus every length-2 history whose parse ENDS EARLY (a
+    // rejected last instruction); thorough = all. Each first parse is run twice: to its natural end, and with a
+    // consumer that stops after the first instruction (early exits are where leftover state would survive).
+    let ends_early = |h: &Vec<TOp>| build(h).insts.last().map_or(false, |(_, e)| matches!(e, Exp::Reject(_)));
     let first: Vec<&(Vec<TOp>, Vec<u32>)> = match tier {
-        Tier::Quick => hs.iter().filter(|h| h.0.len() <= 1).collect(),
+        Tier::Quick => hs.iter().filter(|h| h.0.len() <= 1 || ends_early(&h.0)).collect(),
         Tier::Thorough => hs.iter().collect(),
     };
     let alone: Vec<Result<String, String>> = hs.par_iter().map(|(_, w)| observe(w)).collect();
+    struct StopAfterFirst(u32);
+    impl rspirv::binary::Consumer for StopAfterFirst {
+        fn initialize(&mut self) -> rspirv::binary::ParseAction {
+            rspirv::binary::ParseAction::Continue
+        }
+        fn finalize(&mut self) -> rspirv::binary::ParseAction {
+            rspirv::binary::ParseAction::Continue
+        }
+        fn consume_header(&mut self, _: dr::ModuleHeader) -> rspirv::binary::ParseAction {
+            rspirv::binary::ParseAction::Continue
+        }
+        fn consume_instruction(&mut self, _: dr::Instruction) -> rspirv::binary::ParseAction {
+            self.0 += 1;
+            if self.0 >= 1 {
+                rspirv::binary::ParseAction::Stop
+            } else {
+                rspirv::binary::ParseAction::Continue
+            }
+        }
+    }
     let pair_viols: Vec<Option<Viol>> = first
         .par_iter()
         .map(|(ha, wa)| {
-            for (j, (hb, wb)) in hs.iter().enumerate() {
-                let _ = observe(wa);
-                let after = observe(wb);
-                if after != alone[j] {
-                    return Some(viol(
-                        "C10:independence",
-                        format!("parsing [{}] gives {:?} alone but {:?} after parsing [{}]", hist_str(hb), alone[j], after, hist_str(ha)),
-                        json!({"kind": "c10-pair", "first": hex(&model::words_to_bytes(wa)), "second": hex(&model::words_to_bytes(wb))}),
-                    ));
+            let ba = model::words_to_bytes(wa);
+            for mode in 0..2 {
+                for (j, (hb, wb)) in hs.iter().enumerate() {
+                    if mode == 0 {
+                        let _ = observe(wa);
+                    } else {
+                        let _ = guarded(|| rspirv::binary::parse_bytes(&ba, &mut StopAfterFirst(0)));
+                    }
+                    let after = observe(wb);
+                    if after != alone[j] {
+                        return Some(viol(
+                            "C10:independence",
+                            format!("parsing [{}] gives {:?} alone but {:?} after parsing [{}]{}", hist_str(hb), alone[j], after, hist_str(ha), if mode == 1 { " with a consumer that stops after the first instruction" } else { "" }),
+                            json!({"kind": "c10-pair", "first": hex(&model::words_to_bytes(wa)), "second": hex(&model::words_to_bytes(wb)), "first_stops_early": mode == 1}),
+                        ));
+                    }
                 }
             }
             None
         })
         .collect();
-    let pairs = first.len() as u64 * hs.len() as u64;
+    let pairs = 2 * first.len() as u64 * hs.len() as u64;
     run.add_all(pair_viols.into_iter().flatten());
     run.outcome("independence_pairs", pairs);
 
